@@ -30,13 +30,16 @@ TECHNIQUE = (
     "cache-reset model validated against fresh interpreters"
 )
 LEVEL_TEXT = (
-    "38 calls (einsum, array_contract, array_contract_path/tree/expression, "
+    "47 calls (einsum, array_contract, array_contract_path/tree/expression, "
     "einsum_expression, expression reuse on new arrays) differing pairwise "
     "in one cache-key component (output order, one size, optimize as preset "
     "/ tuple path / list path / nested-list path / edge path, "
     "strip_exponent, implementation, prefer_einsum, "
     "sort_contraction_indices, relabelling, canonicalize=False with labels "
-    "whose Python hashes collide, shapes vs size_dict) are executed in "
+    "whose Python hashes collide, shapes vs size_dict, one cached "
+    "expression traced on lazy arrays / built with constants / used on "
+    "numpy arrays, a mutable tree object as optimize changed in place "
+    "between identical calls) are executed in "
     "every order of length <=2 (<=3 thorough) from a clean state; each "
     "result must equal the uncached result and the reference, and every "
     "path/tree/expression must belong to the contraction asked."
@@ -258,7 +261,123 @@ def build_pool():
 
     P["array_contract_expression-T"] = dict(
         fn=ac_expr, want=want(base_in, ("d", "a"), sd))
+
+    # ---- one cached expression used on different KINDS of arrays: traced on
+    # autoray lazy variables (what the library itself does for constants),
+    # then on numpy arrays (shares its entry with "expression-reuse")
+    def expr_traced(cache):
+        from autoray import lazy
+
+        shapes = [(2, 3), (3, 4), (4, 5)]
+        expr = ctg.einsum_expression("ab,bc,cd->ad", *shapes, cache=cache)
+        lz = [lazy.Variable(s, backend="numpy") for s in shapes]
+        traced = expr(*lz)
+        return ["traced", type(traced).__name__,
+                val(traced.get_function(lz)(arrs))]
+
+    P["expression-traced-on-lazy-arrays"] = dict(
+        fn=expr_traced,
+        want=["traced", "LazyArray", want(base_in, ("a", "d"), sd)])
+
+    explicit_defaults = dict(implementation=None, autojit=False,
+                             prefer_einsum=False,
+                             sort_contraction_indices=False)
+
+    def expr_constants(cache):
+        expr = ctg.einsum_expression(
+            "ab,bc,cd->ad", arrs[0], (3, 4), arrs[2], constants=[0, 2],
+            cache=cache)
+        out = expr(arrs[1])
+        return [type(out).__name__, val(out)]
+
+    P["expression-with-constants"] = dict(
+        fn=expr_constants,
+        want=["ndarray", want(base_in, ("a", "d"), sd)])
+
+    def expr_explicit(cache):
+        expr = ctg.einsum_expression("ab,bc,cd->ad", (2, 3), (3, 4), (4, 5),
+                                     cache=cache, **explicit_defaults)
+        out = expr(*arrs_b)
+        return [type(out).__name__, val(out)]
+
+    P["expression-explicit-default-options"] = dict(
+        fn=expr_explicit,
+        want=["ndarray", want(base_in, ("a", "d"), sd, seed=5)])
+
+    # ---- a mutable object as ``optimize``: one long-lived tree passed to
+    # identical calls, changed in place in between (events "tree-*")
+    def tree_path(cache):
+        return path_obs(ctg.array_contract_path(
+            base_in, ("a", "d"), sd, optimize=_SHARED["tree"], cache=cache),
+            3)
+
+    P["path-optimize-tree-object"] = dict(fn=tree_path, want=None)
+
+    def tree_einsum(cache):
+        return val(ctg.einsum("ab,bc,cd->ad", *arrs, cache_expression=cache,
+                              optimize=_SHARED["tree"]))
+
+    P["einsum-optimize-tree-object"] = dict(fn=tree_einsum, want=None)
+
+    def tree_restructure(cache):
+        other = ctg.ContractionTree.from_path(
+            base_in, ("a", "d"), sd, path=((1, 2), (0, 1)))
+        _SHARED["tree"].set_state_from(other)
+        return ["tree-changed-in-place", "other order"]
+
+    P["tree-restructured-in-place"] = dict(fn=tree_restructure, want=None)
+
+    def tree_project(cache):
+        t = _SHARED["tree"]
+        if "c" not in t.sliced_inds:
+            t.remove_ind_("c", project=1)
+        return ["tree-changed-in-place", "c projected"]
+
+    P["tree-projected-in-place"] = dict(fn=tree_project, want=None)
+
+    # the same three-step stories inside one call (depth-2 histories then
+    # already contain them): ask, change the tree in place, ask again
+    def tree_story_path(cache):
+        t = ctg.ContractionTree.from_path(base_in, ("a", "d"), sd,
+                                          path=((0, 1), (0, 1)))
+        p1 = path_obs(ctg.array_contract_path(
+            base_in, ("a", "d"), sd, optimize=t, cache=cache), 3)
+        t.set_state_from(ctg.ContractionTree.from_path(
+            base_in, ("a", "d"), sd, path=((1, 2), (0, 1))))
+        p2 = path_obs(ctg.array_contract_path(
+            base_in, ("a", "d"), sd, optimize=t, cache=cache), 3)
+        return ["two-paths", p1, p2]
+
+    P["path-optimize-tree-object-changed-between-calls"] = dict(
+        fn=tree_story_path,
+        want=["two-paths", ["path", [[0, 1], [0, 1]]],
+              ["path", [[1, 2], [0, 1]]]])
+
+    def tree_story_einsum(cache):
+        t = ctg.ContractionTree.from_path(base_in, ("a", "d"), sd,
+                                          path=((0, 1), (0, 1)))
+        v1 = val(ctg.einsum("ab,bc,cd->ad", *arrs, cache_expression=cache,
+                            optimize=t))
+        t.remove_ind_("c", project=1)
+        v2 = val(ctg.einsum("ab,bc,cd->ad", *arrs, cache_expression=cache,
+                            optimize=t))
+        return ["two-values", v1, v2]
+
+    P["einsum-optimize-tree-object-projected-between-calls"] = dict(
+        fn=tree_story_einsum, want=None)
+    _fresh_shared()
     return P
+
+
+_SHARED = {}
+
+
+def _fresh_shared():
+    import cotengra as ctg
+
+    _SHARED["tree"] = ctg.ContractionTree.from_path(
+        (("a", "b"), ("b", "c"), ("c", "d")), ("a", "d"),
+        {"a": 2, "b": 3, "c": 4, "d": 5}, path=((0, 1), (0, 1)))
 
 
 def reset_caches():
@@ -268,6 +387,7 @@ def reset_caches():
     con = importlib.import_module("cotengra.contract")
     ut = importlib.import_module("cotengra.utils")
     pb = importlib.import_module("cotengra.pathfinders.path_basic")
+    _fresh_shared()
     iface._PATH_CACHE.clear()
     iface._CONTRACT_EXPR_CACHE.clear()
     iface._find_path_handlers.clear()
